@@ -1,8 +1,37 @@
 /-
   Rtp/Props/C18.lean — C18: NTP time mapping and send-time estimation recover the original instant.
   Property theorems only; helper lemmas live in Rtp/Proofs/Ntp.lean.
+
+  Instants and durations are `Int64` nanoseconds (what crosses the harness boundary as
+  `time.Unix(0, ns)` / `.UnixNano()` / `time.Duration`); the ranges are exactly those of the property
+  text (Rtp/Pred/C18.lean).
 -/
-import Rtp.Pred.C18
-import Rtp.Model.Ntp
+import Rtp.Proofs.Ntp
 namespace Rtp.Props.C18
+open Rtp Rtp.Model.Ntp Rtp.Pred.C18 Rtp.Proofs.Ntp
+
+/-- every instant from 1970-01-01 up to the end of the NTP era:
+    `NewAbsCaptureTimeExtension(t).CaptureTime()` is `t` or `t − 1 ns` -/
+theorem c18_capture_spec (t : Int64) (h : instantOk t.toInt = true) :
+    0 ≤ t.toInt - (captureTime (captureTimestamp t)).toInt ∧
+    t.toInt - (captureTime (captureTimestamp t)).toInt ≤ 1 :=
+  capture_ok t h
+
+/-- the predicate the driver evaluates on the real code holds of the model, for every `int64` instant -/
+theorem c18_capture (t : Int64) :
+    captureOk t ⟨captureTimestamp t, captureTime (captureTimestamp t)⟩ = true := by
+  by_cases h : instantOk t.toInt = true
+  · have := capture_ok t h
+    simp only [captureOk, capture, h, Bool.not_true, Bool.false_or, Bool.and_eq_true, decide_eq_true_eq]
+    omega
+  · simp [captureOk, h]
+
+/-- non-vacuity: 2019-03-27 13:39:30.008675309 -05:00 (a value of TestNtpConversion) maps to the NTP
+    time pinned by the test and comes back one nanosecond early; the last nanosecond of the era is in range -/
+example : captureTimestamp 1553711970008675309 = 0xe04641e202388b88 ∧
+    captureTime 0xe04641e202388b88 = 1553711970008675308 ∧
+    instantOk (1553711970008675309 : Int64).toInt = true ∧
+    instantOk (2085978495999999999 : Int64).toInt = true ∧ instantOk (2085978496000000000 : Int64).toInt = false := by
+  decide
+
 end Rtp.Props.C18
